@@ -9,6 +9,7 @@ import UcantoModel.Model.Cost
 import UcantoModel.Model.UcanJson
 import UcantoModel.Model.Message
 import UcantoModel.Model.CborJson
+import UcantoModel.Model.ReadersJson
 /-!
 # Line-protocol driver
 stdin: one case per line, TAB separated: `op  arg1  arg2 …`
@@ -398,6 +399,9 @@ def handle (line : String) : String :=
   | ["rsatag", _, n, _] => (if n == "0" then "ok" else "err") ++ "\t-"
   | ["servecost", world, impl] => doCost world impl
   | ["didread", m, arg, impl] => doDidRead m arg impl
+  | ["rdtree", t, xs, _] => (match RdJson.run t xs with
+      | .ok r => s!"{r}\t-"
+      | .error e => bad s!"rdtree {e}")
   | ["cbor", v, _] => doCbor v
   | ["rcptconc", _, g, per, _, _] => (match g.toNat?, per.toNat? with
       | some g, some p => s!"issued={g * p}|bad=0\t-"
